@@ -9,7 +9,7 @@ from mem import Memory
 class Unsupported(Exception): pass
 class EngineLimit(Exception): pass
 
-VISIBLE_RT = {'vf_visible', 'vf_spin_wait', 'pthread_mutex_lock', 'pthread_mutex_unlock', 'pthread_mutex_trylock',
+VISIBLE_RT = {'vf_visible', 'vf_spin_wait', 'vf_spin_wait2', 'pthread_mutex_lock', 'pthread_mutex_unlock', 'pthread_mutex_trylock',
               '_ZNSt18condition_variable4waitERSt11unique_lockISt5mutexE', '_ZNSt18condition_variable10notify_oneEv',
               '_ZNSt18condition_variable10notify_allEv', 'pthread_cond_clockwait', 'pthread_cond_timedwait',
               '_ZNSt6thread4joinEv', 'vf_thread_body', 'vf_join_all', 'vf_wait_until_eq'}
@@ -196,12 +196,31 @@ class Engine:
                 I = f.blocks[fr[1]].ins[fr[2]]
                 if I.op == 'invoke': live = set(live) | f.liveout[fr[1]]
             d = {}
-            if i == 0 and ('!last' in da or '!last' in db):
-                la, lb = da.get('!last'), db.get('!last')
-                if la is None or lb is None: d['!last'] = la or lb
-                elif la is lb: d['!last'] = la
-                elif la == 'poison' or lb == 'poison' or la[2] != lb[2]: d['!last'] = 'poison'   # differing watch sizes: must be re-established before a spin-wait
-                else: d['!last'] = (ite(gb, lb[0], la[0], 64), ite(gb, lb[1], la[1], la[2] * 8), la[2])
+            if i == 0 and ('!nd' in da or '!nd' in db):
+                # per-path draw counters of the current step (see explore._nondet_named)
+                na, nb = da.get('!nd'), db.get('!nd')
+                if na is None or nb is None or na[0] != nb[0]:
+                    cur_ = (s.cur, s.stepno)
+                    na = na if (na is not None and na[0] == cur_) else (cur_, {})
+                    nb = nb if (nb is not None and nb[0] == cur_) else (cur_, {})
+                if na[1] is nb[1]: d['!nd'] = na
+                else:
+                    mm = {}
+                    for kk in set(na[1]) | set(nb[1]):
+                        ca, cb = na[1].get(kk, 0), nb[1].get(kk, 0)
+                        mm[kk] = ca if (isinstance(ca, int) and isinstance(cb, int) and ca == cb) else ite(gb, cb, ca, 8)
+                    d['!nd'] = (na[0], mm)
+            for lk_ in ('!last', '!last2'):
+                # watch entries (pointer, value, size, valid-guard) of the path's latest atomic reads; a path without one gets an invalid entry
+                if i != 0 or not (lk_ in da or lk_ in db): continue
+                la, lb = da.get(lk_), db.get(lk_)
+                if la is None and lb is None: continue
+                if la == 'poison' or lb == 'poison': d[lk_] = 'poison'; continue
+                if la is None: la = (0, 0, lb[2], False)
+                if lb is None: lb = (0, 0, la[2], False)
+                if la is lb: d[lk_] = la
+                elif la[2] != lb[2]: d[lk_] = 'poison'   # differing watch sizes: must be re-established before a spin-wait
+                else: d[lk_] = (ite(gb, lb[0], la[0], 64), ite(gb, lb[1], la[1], la[2] * 8), la[2], ite_g(gb, lb[3], la[3]))
             for k in live:
                 va = da.get(k); vb = db.get(k)
                 if va is None or vb is None:
@@ -438,7 +457,7 @@ class Engine:
             g, env = st
             nv = visits.get(ctrl, 0) + 1; visits[ctrl] = nv
             if s.concrete is None and not isinstance(g, bool):
-                if s.opts.get('feas') and nv > s.opts.get('feas_at', 6):
+                if (s.opts.get('feas') or (s.opts.get('feas_seq') and (s.sequential or t == s.NT))) and nv > s.opts.get('feas_at', 6):
                     # revisit of a control point: drop the path if its guard is unsatisfiable (decided by an incremental solver)
                     if not s.feasible(g): continue
                 if nv > s.opts.get('max_visits', 16):
@@ -631,7 +650,7 @@ class Engine:
     def setlast(s, t, p, v, sz, g):
         """remember the location/value of this path's latest atomic read (what a following spin-wait watches)"""
         env = s.env
-        env[0] = dict(env[0]); env[0]['!last'] = (p, v, sz)
+        env[0] = dict(env[0]); env[0]['!last2'] = env[0].get('!last'); env[0]['!last'] = (p, v, sz, True)
     def tset(s, t, key, v, g, w):
         st = s.tstate[t]; o = st.get(key)
         st[key] = v if (o is None or g is True) else ite(g, v, o, w)
@@ -942,15 +961,22 @@ class Engine:
                     lk = gand(g, gand(r.live, gnot(r.freed)))
                     s.add_check(lk, 'memory leak: %s never freed' % r.name.split('@')[1], 'mem')
             return
-        if nm == 'vf_spin_wait':
+        if nm in ('vf_spin_wait', 'vf_spin_wait2'):
+            # blocks the thread until (one of) the location(s) it last read atomically holds a different value: exact stutter elimination
             st = s.tstate[t]
             if t == s.NT or s.sequential: s.add_check(g, 'spin-wait in sequential section would hang', 'assert'); return []
             if s.env[0].get('!last', 'poison') == 'poison': raise EngineLimit('vf_spin_wait without an unambiguous preceding atomic load')
-            p, v, sz = s.env[0]['!last']
-            if 'park' in st and st['park'][2] == sz:
-                op_, ov, osz = st['park']
-                st['park'] = (ite(g, p, op_, 64), ite(g, v, ov, sz * 8), sz)
-            else: st['park'] = (p, v, sz)
+            ws = [s.env[0]['!last']]
+            s.add_check(gand(g, gnot(ws[0][3])), 'ENGINE-LIMIT spin-wait on a path without a preceding atomic load', 'limit')
+            if nm == 'vf_spin_wait2':
+                l2 = s.env[0].get('!last2')
+                if l2 == 'poison': raise EngineLimit('vf_spin_wait2 without unambiguous preceding atomic loads')
+                if l2 is not None: ws.append(l2)
+            if len(ws) == 1: ws.append((0, 0, ws[0][2], False))
+            old = st.get('park')
+            if old is not None and all(o[2] == w[2] for o, w in zip(old, ws)):
+                st['park'] = [(ite(g, w[0], o[0], 64), ite(g, w[1], o[1], w[2] * 8), w[2], ite_g(g, w[3], o[3])) for o, w in zip(old, ws)]
+            else: st['park'] = ws
             s.tsetg(t, 'parked', True, g)
             return
         if nm == 'pthread_mutex_lock':
